@@ -119,7 +119,7 @@ def generate_anomalous_data(
     variances = [np.asarray(variance).reshape(-1) for variance in variances]
     if len(means) == 0 or len(variances) == 0:
         raise ValueError("Number of anomalies, means and variances must be the same.")
-    p = len(means[0])
+    p = max(len(means[0]), len(variances[0]))
 
     if len(means) == 1:
         means = means * len(anomalies)
